@@ -41,6 +41,10 @@ class Num(enum.IntEnum):
     ONE = 1
     TWO = 2
 
+class Mode(str, enum.Enum):
+    FAST = "fast"
+    SLOW = "slow"
+
 class Perm(enum.Flag):
     R = 1
     W = 2
@@ -70,6 +74,24 @@ class Bag:
     def __len__(self):
         return len(self.items)
 
+class Celsius(float):
+    def __repr__(self):
+        return f"Celsius({float(self)})"
+    __str__ = __repr__
+
+class Money(int):
+    def __repr__(self):
+        return f"Money({int(self)})"
+    __str__ = __repr__
+
+class Tag(str):
+    def __repr__(self):
+        return f"Tag<{str.__str__(self)}>"
+
+class Vec(tuple):
+    def __repr__(self):
+        return "Vec" + tuple.__repr__(self)
+
 def hidden():
     return _Hidden.H
 
@@ -87,7 +109,7 @@ def floors(tier):
     return {"evals": 3000 if tier == "quick" else 30000, "distinct": 800,
             "classes": {"float:-0.0": 1, "float:nan": 1, "float:inf": 2, "float:subnormal": 1, "complex": 3, "enum:top": 2,
                         "enum:nested": 1, "enum:flag-combo": 1, "int:huge": 1, "nested-depth>=4": 5, "object-fields": 5,
-                        "str:odd": 5, "bytes": 3, "assert:FloatAssertion": 20, "assert:ObjectAssertion": 500,
+                        "str:odd": 5, "bytes": 3, "subclass-of-builtin-with-custom-repr": 20, "assert:FloatAssertion": 20, "assert:ObjectAssertion": 500,
                         "assert:IsInstanceAssertion": 5, "assert:TypeNameAssertion": 3, "assert:CollectionLengthAssertion": 5}}
 
 
@@ -113,7 +135,9 @@ def _rand_value(rng, sut, depth=0):
                                0.1 + 0.2, rng.uniform(-1e3, 1e3), rng.random() * 1e-300])
         if k < 0.82:
             return rng.choice([1 + 2j, -0j, complex(0, -1.5), complex(1e308, -1e-300), complex(math.inf, 0), 2j])
-        return rng.choice([sut.Color.RED, sut.Color.GREEN, sut.Num.TWO, sut.Perm.R, sut.Outer.Inner.B])
+        if rng.random() < 0.3:
+            return rng.choice([sut.Celsius(rng.choice([0.0, 2.5, -7.25, 1e20])), sut.Money(rng.randint(-5, 5)), sut.Tag("t"), sut.Vec((1,))])
+        return rng.choice([sut.Color.RED, sut.Color.GREEN, sut.Num.TWO, sut.Perm.R, sut.Outer.Inner.B, sut.Mode.FAST])
     kind = rng.choice(["list", "tuple", "set", "dict", "tuple1"])
     n = rng.randint(0, 3)
     if kind == "list":
@@ -200,6 +224,8 @@ def _classes(v, sut):
         cl.append("str:odd")
     if _contains(v, lambda x: isinstance(x, bytes)):
         cl.append("bytes")
+    if _contains(v, lambda x: type(x).__module__ == "c20_sut" and isinstance(x, (float, int, str, tuple)) and not isinstance(x, enum.Enum)):
+        cl.append("subclass-of-builtin-with-custom-repr")
     return cl
 
 
@@ -216,7 +242,7 @@ def _mech(v, a, cl):
 
     if _contains(v, not_importable):
         return f"{an}:enum-class-not-importable"
-    for c in ("float:nan", "float:-0.0", "complex", "enum:flag-combo", "enum:nested", "int:beyond-str-digit-limit"):
+    for c in ("subclass-of-builtin-with-custom-repr", "float:nan", "float:-0.0", "complex", "enum:flag-combo", "enum:nested", "int:beyond-str-digit-limit"):
         if c in cl:
             return f"{an}:{c}"
     return f"{an}:{type(v).__name__}"
@@ -296,7 +322,7 @@ def run_chunk(spec, ctx):
     directed = [
         0, -5, 2**63, -(2**64), 10**100, 10**5000, True, None, "", "it's \"x\"\\\n\x00", "\ud800", b"", b"\xff\x00'", 0.0, -0.0, 1.5, -2.25,
         1e-7, 1e16, 1e22, 1e308, 5e-324, 2.2250738585072014e-308, math.inf, -math.inf, math.nan, 1 + 2j, -0j, complex(math.nan, 1), complex(0, math.inf),
-        sut.Color.RED, sut.Color.GREEN, sut.Num.TWO, sut.Perm.R, sut.Perm.R | sut.Perm.W, sut.Perm(0), sut.Outer.Inner.A, sut.hidden(), sut.foreign(), sut.local(), [sut.local()], sut.Point(sut.foreign(), 1),
+        sut.Color.RED, sut.Color.GREEN, sut.Num.TWO, sut.Perm.R, sut.Perm.R | sut.Perm.W, sut.Perm(0), sut.Outer.Inner.A, sut.Mode.FAST, [sut.Mode.SLOW], {sut.Mode.FAST: 1}, sut.Celsius(37.0), sut.Celsius(0.0), sut.Celsius(-1.5), sut.Celsius(float('nan')), sut.Money(5), sut.Money(-3), sut.Tag('x'), sut.Vec((1, 2)), [sut.Celsius(2.5)], {'k': sut.Money(1)}, sut.Point(sut.Celsius(1.0), sut.Tag('t')), sut.hidden(), sut.foreign(), sut.local(), [sut.local()], sut.Point(sut.foreign(), 1),
         [], (), set(), {}, [1, [2, [3, [4, [5]]]]], ((((1,),),),), {1: {2: {3: {4: {5: 6}}}}}, [sut.Color.RED, (sut.Num.ONE, "x")],
         {sut.Color.RED: [1, 2]}, {(1, 2): "t", "k": (None, True)}, {1, "a", (2, 3)}, frozenset({1}), [1.5], (1, 2.5), {"a": math.nan},
         [[[[[[1]]]]]], sut.Point(1, 2.5), sut.Point(-0.0, math.nan), sut.Point([1, 2], {"a": sut.Color.RED}), sut.Point(sut.Outer(), None),
